@@ -28,6 +28,15 @@ def cases(ctx: Ctx, res: Result):
         ([('a', [P('p', ['0000', '0000'], [['eq:0'], ['eq:1']]), P('q', ['0000', '1000'], [['eq:0'], ['eq:1']])]),
           ('b', [P('r', ['0000'], [['eq:1']])])], [0, 0, 2, 1, 1]),
     ]
+    # two patterns of ONE name in one phenomenon (nothing forbids it): they share a slot of the run table, each run keeps
+    # the pattern it was started from; a one-block pattern (first block = last block) completes on the event it accepts
+    # and never has a stored run -- singleton or not
+    for sing1 in (False, True):
+        for sing2 in (False, True):
+            corpus.append(([('ph', [P('p', ['0000', '0000'], [['eq:0'], ['eq:1']], singleton=sing2), P('p', ['0000'], [['eq:2']], singleton=sing1)])],
+                           [0, 2, 2, 1, 2]))
+            corpus.append(([('ph', [P('p', ['0000'], [['eq:2']], singleton=sing1), P('p', ['0000', '0100', '0000'], [['eq:0'], ['eq:2'], ['eq:1']], singleton=sing2)])],
+                           [2, 0, 2, 2, 1, 2]))
     for phens, stream in corpus:
         res.count('corpus')
         yield Case(phens, 0, ev_ops(stream), 'corpus')
@@ -52,6 +61,11 @@ def cases(ctx: Ctx, res: Result):
     # seeded random: longer patterns, several patterns/phenomena, history-dependent predicates
     for _ in range(1500 if ctx.thorough else 250):
         phens = gp.random_phens(ctx.rng)
+        if ctx.rng.random() < 0.15:           # a second pattern under the name of the first, sometimes with a single block
+            ph, pats = phens[0]
+            twin = gp.random_pattern(ctx.rng, pats[0]['name'], kmin=1, kmax=3)
+            phens[0] = (ph, pats + [twin])
+            res.count('same_name_in_one_phenomenon')
         res.count('random')
         res.count('shape:' + gp.shape_key(phens)[:40])
         yield Case(phens, ctx.rng.choice((0, 0, 3)), ev_ops(gp.random_stream(ctx.rng, ctx.rng.randint(5, 30)),
